@@ -24,7 +24,9 @@ import TexcraftModel.Model.C13
   run of the model engine with `is_separation_point()` after every item (item = `0 c s` |
   `1 k s` | `2 c lb rb n o… s`), which the harness compares with the real `RunIter`; `ub=1` iff
   `unbrokenM` (every rebuilt word replaced by its main run) is the input itself — then
-  `hyphenateM_invariants` gives P1 against the input.
+  `hyphenateM_invariants` gives P1 against the input; `dev=` one letter per rebuilt word, see
+  `devClass` (why its main run is not its nodes: `-` it is, `f`/`g`/`i` the recorded shapes of the
+  known findings C14-f/g/i, `o` anything else).
 
 List encoding: `<n> item…`; item = `0 c font` | `1 c font lb rb <k> orig…` | `2 kind w` |
 `3 kind <k> payload…` | `4 rc <npre> delem… <npost> delem…`; delem = `0 c font` |
@@ -231,6 +233,57 @@ def rebuiltWords (inp : List Item) (lhm rhm : Int) (liang : List Nat → List Na
     let pb := popBoundaryLig w.font skipped (startsWithLB rest.head?)
     some (w.letters, !pb.2, rboOf w.font (rest.drop w.nodes).head?))
 
+/-! ### Why the main run of a rebuilt word differs from the word's nodes (known findings C14-f/g/i)
+
+Only meaningful when the model reproduces the real output exactly (`v = 1`): then, by
+`hyphenateM_invariants`, the sole reason for a P1 failure is that some rebuilt word's main run is
+not the word's nodes; this classifies that deviation by the shape of the input. -/
+
+def clearRb : Item → Item
+  | .lig c f o lb _ => .lig c f o lb false
+  | x => x
+
+def isEmptyLig : Item → Bool
+  | .lig _ _ [] _ _ => true
+  | _ => false
+
+/-- Right-boundary flags cleared, trailing boundary-only ligatures dropped. -/
+def normEnd (l : List Item) : List Item := ((l.map clearRb).reverse.dropWhile isEmptyLig).reverse
+
+/-- `-` the main run is the word's nodes; `f` (C14-f) the word is followed by a non-letter of its
+font (`right_boundary_override`) and the runs agree up to right-boundary flags and trailing
+boundary-only ligatures; `g` (C14-g) the left boundary is enabled and the main run is the word's
+nodes preceded by a copy of the font kern that was stepped over; `i` (C14-i) the word follows a
+character of its font inside the token, the left boundary is disabled and the font has a rule
+for (that character, first letter); `j` (C14-j) the left boundary is disabled, the word is
+preceded by boundary-only ligatures the first of which absorbed the left boundary, and the run
+WITH the left boundary reproduces exactly those ligatures followed by the word's nodes (a chain
+of rules that started at the boundary changed the first letter); `o` anything else. -/
+def devClass (eng : Engine) (inp : List Item) (lhm rhm : Int) (liang : List Nat → List Nat) (w : Word) : Option String :=
+  let pos := wordPositions lhm rhm w.letters.length (liang w.letters)
+  if pos.isEmpty then none else
+  let rest := inp.drop w.start
+  let skipped := ((inp.take w.start).reverse.takeWhile (fun x => !x.isGlue)).reverse
+  let pb := popBoundaryLig w.font skipped (startsWithLB rest.head?)
+  let dlb := !pb.2
+  let rbo := rboOf w.font (rest.drop w.nodes).head?
+  let a := ((eng.run dlb rbo w.letters).map (·.1)).map (toItem w.font)
+  let b := skipped.drop pb.1.length ++ rest.take w.nodes
+  if a = b then some "-"
+  else if rbo.isSome && normEnd a == normEnd b then some "f"
+  else if !dlb && (match a, pb.1.getLast? with
+      | .kern 0 k :: a', some (.kern 0 k') => k == k' && a' == b
+      | _, _ => false) then some "g"
+  else if dlb && (
+      let pre := ((pb.1.reverse.takeWhile isEmptyLig).reverse).dropWhile
+        (fun x => match x with | .lig _ _ _ lb _ => !lb | _ => true)
+      !pre.isEmpty && ((eng.run false rbo w.letters).map (·.1)).map (toItem w.font) == pre ++ b) then some "j"
+  else if dlb && (match pb.1.getLast?, w.letters with
+      | some (.char c f), l :: _ => f == w.font && eng.hasRepl (some c) (some l)
+      | some (.lig c f _ _ _), l :: _ => f == w.font && eng.hasRepl (some c) (some l)
+      | _, _ => false) then some "i"
+  else some "o"
+
 def tidx (l : Option Nat) (r : Nat) : Nat := (match l with | none => 256 | some x => x) * 256 + r
 
 /-- `C05.table p`, tabulated once per program: the candidate pairs are evaluated with the fuel
@@ -276,7 +329,8 @@ def handleRm (eng : Engine) (lhm rhm : Int) (rest : Cur) : String :=
           let ub := match unbrokenM eng lhm rhm liang inp with
             | some u => if u = inp then "1" else "0"
             | none => "P"
-          s!"{v} | {";".intercalate runs} | {shown} | ub={ub}"
+          let dev := "".intercalate ((findWords inp).filterMap (devClass eng inp lhm rhm liang))
+          s!"{v} | {";".intercalate runs} | {shown} | ub={ub} dev={dev}"
         | _ => "bad-request raws"
       | _ => "bad-request out"
 
